@@ -1252,6 +1252,55 @@ fn c10_older_timestamp_after_barrier(dir: PathBuf) -> ScenFut<'static> {
     })
 }
 
+/// A reader begins between two hard deletes of a key whose oldest version sits on a deeper
+/// level. Compaction finds the older delete redundant (a newer barrier exists) - but the reader
+/// sees the older one only.
+fn c10_reader_between_two_barriers(dir: PathBuf) -> ScenFut<'static> {
+    Box::pin(async move {
+        let cfg = Cfg { level_count: 5, l0_max_files: 1, max_bytes_for_level: 512, ..ver_cfg(false) };
+        let t = cfg.open(&dir).map_err(|e| e.to_string())?;
+        set_at(&t, b"k", b"v1", 10).await?;
+        t.verif_flush().map_err(|e| e.to_string())?;
+        compact_all(&t).await?; // v1 sits on a deeper level now
+        del(&t, b"k").await?; // erases v1 for good
+        put(&t, &[(b"k", b"v2")]).await?;
+        let reader = t.begin_with_mode(Mode::ReadOnly).map_err(|e| e.to_string())?;
+        let observe = |tx: &surrealkv::Transaction| -> Result<(Option<Vec<u8>>, usize), String> {
+            let g = tx.get_at(&b"k"[..], 10).map_err(|e| format!("get_at(k, 10): {e}"))?;
+            let o = surrealkv::HistoryOptions::new().with_tombstones(true);
+            let mut it = tx.history_with_options(&b"a"[..], &b"z"[..], &o).map_err(|e| e.to_string())?;
+            let mut n = 0;
+            let mut ok = it.seek_first().map_err(|e| e.to_string())?;
+            while ok && it.valid() {
+                n += 1;
+                ok = it.next().map_err(|e| e.to_string())?;
+            }
+            Ok((g, n))
+        };
+        let before = observe(&reader)?;
+        del(&t, b"k").await?; // the newer barrier, committed after the reader began
+        t.verif_flush().map_err(|e| e.to_string())?;
+        let mut rounds = 0;
+        while rounds < 4 && t.verif_compact_once().map_err(|e| e.to_string())? {
+            rounds += 1;
+        }
+        let after = observe(&reader)?;
+        drop(reader);
+        close(t).await;
+        if before != (None, 1) {
+            return Err(format!("harness: before the second delete the reader reads get_at(k, 10) = {:?} and lists {} versions", before.0.map(|v| v.len()), before.1));
+        }
+        if after != before {
+            return Err(format!(
+                "k = v1 @10 flushed and compacted to a deeper level; hard delete of k; k = v2; a read-only transaction begins (get_at(k, 10) = None, one version listed); a second hard delete of k; flush; {rounds} compaction round(s): the open transaction now reads get_at(k, 10) = {:?} and lists {} versions - compaction dropped the older delete as redundant, the reader does not see the newer one, and v1 is back for it",
+                after.0.map(|v| String::from_utf8_lossy(&v).to_string()),
+                after.1
+            ));
+        }
+        Ok(())
+    })
+}
+
 fn c10_retention_drops_replace_barrier(dir: PathBuf) -> ScenFut<'static> {
     Box::pin(async move {
         use std::sync::atomic::{AtomicU64, Ordering};
@@ -4143,6 +4192,12 @@ fn c17_cancelled_commits_overflow_queue(dir: PathBuf) -> ScenFut<'static> {
 
 pub fn all() -> Vec<Scenario> {
     vec![
+        Scenario {
+            id: "C10-reader-between-two-barriers",
+            property: "C10",
+            title: "a reader begun between two hard deletes of a key whose oldest version sits on a deeper level; then flush and compaction",
+            run: c10_reader_between_two_barriers,
+        },
         Scenario {
             id: "C10-older-timestamp-after-barrier",
             property: "C10",
